@@ -13,7 +13,7 @@ import (
 func init() {
 	register(&propInfo{
 		ID:          "C09",
-		Explanation: "Path analysis of the server's reply-producing code: (R09.1) the response encoder inserts \"jsonrpc\" and \"id\" on every path and exactly one of \"error\" (iff the error field is non-nil) and \"result\"; (R09.2) every response literal carries the constant version \"2.0\" and an id read from the request being answered; (R09.3) in the dispatcher every path of an id-bearing request emits at least one reply and no reply is ever followed by another one (a successful channel registration counts as the reply; the notification return after the user call emits none); (R09.4) no error reply is followed by the user call (dispatcher) or by dispatching the same request (reader); (R09.5) the protocol error codes at the method-lookup failure, arity mismatch, empty request/batch and envelope-decode failure sites are -32601, -32602, -32600 and -32700; (R09.6) batch framing: the array brackets and separators are produced by one framing provider that writes '[' for the first and ',' for every later element that actually produces output, every emitter inside the batch loop is given that provider, the closing bracket is written exactly when something was emitted, and the loop never aborts the array; (R09.7) over WebSocket a request without id is given a discarding, non-nil writer and an id-bearing one the locked message writer. (R09.1 also) the id member written by the encoder is the response's id field itself, never a converted value; (R09.11) every use of a message writer is json.NewEncoder, or a Write of a constant, of a json.Marshal result or of a writer wrapper's own parameter. (R09.12) the frame executor never blocks on something only a finishing handler releases; (R09.13) the id normaliser returns nil next to every error; (R09.14) a callback handed to a writer provider writes on every path. (R09.6d) all replies of a batch are produced in one loop over its elements; (R09.15) every read of the method table in the dispatcher is a comma-ok lookup. (R09.16) no request decode is reachable after a synchronous dispatch. (R09.17) the decoded batch is only measured and read before dispatch. (R09.18) nothing on the receiving side stores into the method member of a received request. (R09.19) every call frame reaches the dispatcher.",
+		Explanation: "Path analysis of the server's reply-producing code: (R09.1) the response encoder inserts \"jsonrpc\" and \"id\" on every path and exactly one of \"error\" (iff the error field is non-nil) and \"result\"; (R09.2) every response literal carries the constant version \"2.0\" and an id read from the request being answered; (R09.3) in the dispatcher every path of an id-bearing request emits at least one reply and no reply is ever followed by another one (a successful channel registration counts as the reply; the notification return after the user call emits none); (R09.4) no error reply is followed by the user call (dispatcher) or by dispatching the same request (reader); (R09.5) the protocol error codes at the method-lookup failure, arity mismatch, empty request/batch and envelope-decode failure sites are -32601, -32602, -32600 and -32700; (R09.6) batch framing: the array brackets and separators are produced by one framing provider that writes '[' for the first and ',' for every later element that actually produces output, every emitter inside the batch loop is given that provider, the closing bracket is written exactly when something was emitted, and the loop never aborts the array; (R09.7) over WebSocket a request without id is given a discarding, non-nil writer and an id-bearing one the locked message writer. (R09.1 also) the id member written by the encoder is the response's id field itself, never a converted value; (R09.11) every use of a message writer is json.NewEncoder, or a Write of a constant, of a json.Marshal result or of a writer wrapper's own parameter. (R09.12) the frame executor never blocks on something only a finishing handler releases; (R09.13) the id normaliser returns nil next to every error; (R09.14) a callback handed to a writer provider writes on every path. (R09.6d) all replies of a batch are produced in one loop over its elements; (R09.15) every read of the method table in the dispatcher is a comma-ok lookup. (R09.16) no request decode is reachable after a synchronous dispatch. (R09.17) the decoded batch is only measured and read before dispatch. (R09.18) nothing on the receiving side stores into the method member of a received request. (R09.19) every call frame reaches the dispatcher. (R09.20) the error-reply function invokes its writer provider on every path.",
 		NotDecided:  "HTTP status codes, arbitrary body bytes and value encodings (encoding/json), a notification that fails before the user call still being answered with an id:null error (existing behaviour, outside the decided clauses).",
 		Assumptions: []string{"reply emitters are: calls of a value of the error-reply function type, the lazy-writer helper, and the channel registrar"},
 		Run:         runC09,
@@ -181,6 +181,8 @@ func runC09(c *Ctx) {
 	c.methodNameUntouched("R09.18")
 	c.rule("R09.19", "every request frame is answered: in the executor-side function that starts the dispatcher every path starts it, except where no handler is configured (a frame silently dropped — a duplicate id, a full slot table — gets no response)")
 	c.everyCallFrameDispatched("R09.19")
+	c.rule("R09.20", "an error reply is always written: every path through the error-reply function invokes the writer provider it was given (whether a request deserves an answer is decided by the provider — the discarding one for notifications — not by looking at the request again, whose id an invalid-id rejection has already cleared)")
+	c.errorEmitterAlwaysEmits("R09.20")
 	c.rule("R09.16", "a body that is not valid JSON is answered with one -32700 and runs no handler: the whole body is decoded before the first request is dispatched (no request decode is reachable after a dispatch)")
 	c.decodedBeforeDispatch("R09.16")
 	c.rule("R09.15", "an unknown method (also an alias pointing nowhere) is answered with -32601: every read of the method table in the dispatcher is a comma-ok lookup")
@@ -1980,4 +1982,41 @@ func (c *Ctx) isJSONDecodeErr(v ssa.Value, depth int) bool {
 		}
 	})
 	return found && all
+}
+
+// errorEmitterAlwaysEmits: R09.20. Callers of the error-reply function have already decided that this
+// request gets an error reply, and where it goes: notifications are given the discarding provider. A guard
+// inside the function that returns without invoking the provider — "no id and a method: a notification,
+// nothing to say" — is wrong for the request whose id was of a forbidden type: the rejection path has set
+// the id to nil before calling. Such a request, single or batch element, then gets no reply at all.
+func (c *Ctx) errorEmitterAlwaysEmits(rule string) {
+	p, r := c.P, c.R
+	if r.TErrFn == nil {
+		c.und(rule, "role:T_errfn", "-", "error-reply function type not resolved")
+		return
+	}
+	n := 0
+	for _, fn := range p.Funcs {
+		if pkgOf(fn) != p.Root.Pkg || fn.Parent() != nil || len(fn.Blocks) == 0 || len(fn.Params) == 0 {
+			continue
+		}
+		if !types.Identical(fn.Signature, r.TErrFn.Underlying()) {
+			continue
+		}
+		n++
+		prov := fn.Params[0]
+		invokes := func(in ssa.Instruction) bool {
+			ci, ok := in.(ssa.CallInstruction)
+			return ok && !ci.Common().IsInvoke() && ci.Common().Value == ssa.Value(prov)
+		}
+		construct := fmt.Sprintf("%s: the provider is invoked on every path", fname(fn))
+		if ret := reachFromEntry(fn, isReturn, invokes); ret != nil {
+			c.bad(rule, construct, c.ipos(ret), "the error-reply function can return without invoking the writer provider: a request that was to be answered with an error (one whose id is of a forbidden type has had its id cleared by then) gets no reply — an empty body, or a batch with an element missing")
+		} else {
+			c.ok(rule, construct, p.pos(fn.Pos()), "invoked before every return")
+		}
+	}
+	if n == 0 {
+		c.und(rule, "error-reply function", "-", "no function of the error-reply type found")
+	}
 }
